@@ -3,6 +3,7 @@ from __future__ import annotations
 
 import ast
 import builtins
+import copy
 import os
 
 from .core import AnalysisError
@@ -321,3 +322,172 @@ def names_in(node):
 def norm(node):
     """Normalised text of an expression/statement (position independent)."""
     return ast.unparse(node)
+
+
+# ---------------------------------------------------------------------------
+# inlining of small private helpers (so that extracting a block into a
+# helper, a routine refactoring, does not hide events from an
+# intraprocedural analysis)
+
+class _Renamer(ast.NodeTransformer):
+    def __init__(self, mapping):
+        self.mapping = mapping
+
+    def visit_Name(self, node):
+        if node.id in self.mapping:
+            new = copy.deepcopy(self.mapping[node.id])
+            if isinstance(new, ast.Name):
+                new.ctx = node.ctx
+            return ast.copy_location(new, node)
+        return node
+
+
+def _inlinable(fn):
+    a = fn.args
+    if a.vararg or a.kwarg or fn.decorator_list:
+        return False
+    for n in ast.walk(fn):
+        if n is not fn and isinstance(n, (ast.FunctionDef, ast.Lambda,
+                                          ast.AsyncFunctionDef, ast.ClassDef,
+                                          ast.Yield, ast.YieldFrom,
+                                          ast.Global, ast.Nonlocal)):
+            return False
+    # `return` only as the very last statement
+    rets = [n for n in ast.walk(fn) if isinstance(n, ast.Return)]
+    body = [s for s in fn.body if not (isinstance(s, ast.Expr) and isinstance(
+        s.value, ast.Constant) and isinstance(s.value.value, str))]
+    if not body:
+        return False
+    if any(r is not body[-1] for r in rets):
+        return False
+    return True
+
+
+def inline_helpers(module, cls, fn, depth=2, _counter=[0]):
+    """Copy of ``fn`` in which statement-level calls of private helpers
+    defined in the same class (``self._h(...)``) or module (``_h(...)``) are
+    replaced by the helper's body.  Only helpers with plain parameters, no
+    nested scopes and at most one trailing ``return`` are inlined; everything
+    else is left alone."""
+    fn = copy.deepcopy(fn)
+    selfn = fn.args.args[0].arg if fn.args.args else None
+
+    def callee_of(call):
+        f = call.func
+        if isinstance(f, ast.Attribute) and isinstance(f.value, ast.Name) \
+                and f.value.id == selfn and cls is not None \
+                and f.attr.startswith("_") and not f.attr.startswith("__") \
+                and f.attr in cls.methods and cls.methods[f.attr] is not None:
+            return cls.methods[f.attr], True
+        if isinstance(f, ast.Name) and f.id.startswith("_") \
+                and f.id in module.functions:
+            return module.functions[f.id], False
+        return None, False
+
+    def expand(stmt, level):
+        call = None
+        if isinstance(stmt, ast.Expr) and isinstance(stmt.value, ast.Call):
+            call = stmt.value
+        elif isinstance(stmt, (ast.Assign, ast.Return)) and isinstance(
+                stmt.value, ast.Call):
+            call = stmt.value
+        if call is None or level <= 0:
+            return None
+        target, is_method = callee_of(call)
+        if target is None or target.name == fn.name or not _inlinable(target):
+            return None
+        if any(isinstance(a, ast.Starred) for a in call.args) or any(
+                k.arg is None for k in call.keywords):
+            return None
+        _counter[0] += 1
+        tag = f"_inl{_counter[0]}_"
+        params = [a.arg for a in target.args.args]
+        defaults = target.args.defaults
+        bind = {}
+        if is_method:
+            bind[params[0]] = ast.Name(selfn, ast.Load())
+            params = params[1:]
+        for p, a in zip(params, call.args):
+            bind[p] = a
+        for k in call.keywords:
+            bind[k.arg] = k.value
+        dmap = dict(zip([a.arg for a in target.args.args][-len(defaults):],
+                        defaults)) if defaults else {}
+        pre = []
+        mapping = {}
+        for p in ([target.args.args[0].arg] if is_method else []) + params:
+            v = bind.get(p, dmap.get(p))
+            if v is None:
+                return None
+            if isinstance(v, (ast.Name, ast.Constant)):
+                mapping[p] = v
+            else:
+                tmp = ast.Name(tag + p, ast.Store())
+                pre.append(ast.copy_location(
+                    ast.Assign([tmp], copy.deepcopy(v)), stmt))
+                mapping[p] = ast.Name(tag + p, ast.Load())
+        body = copy.deepcopy(target.body)
+        local_names = set()
+        for s in body:
+            for n in ast.walk(s):
+                if isinstance(n, ast.Name) and isinstance(n.ctx, ast.Store) \
+                        and n.id not in mapping:
+                    local_names.add(n.id)
+        # a parameter that the helper re-binds becomes a local
+        rebinds = {n.id for s in body for n in ast.walk(s)
+                   if isinstance(n, ast.Name) and isinstance(n.ctx, ast.Store)
+                   and n.id in mapping}
+        for p in rebinds:
+            tmp = ast.Name(tag + p, ast.Store())
+            pre.append(ast.copy_location(
+                ast.Assign([tmp], copy.deepcopy(mapping[p])), stmt))
+            mapping[p] = ast.Name(tag + p, ast.Load())
+        for n in local_names:
+            mapping[n] = ast.Name(tag + n, ast.Load())
+        ren = _Renamer(mapping)
+        new_body = []
+        for s in body:
+            if isinstance(s, ast.Expr) and isinstance(s.value, ast.Constant) \
+                    and isinstance(s.value.value, str):
+                continue
+            new_body.append(ren.visit(s))
+        out = pre
+        if new_body and isinstance(new_body[-1], ast.Return):
+            ret = new_body.pop()
+            val = ret.value or ast.Constant(None)
+            if isinstance(stmt, ast.Assign):
+                tail = ast.Assign(copy.deepcopy(stmt.targets), val)
+            elif isinstance(stmt, ast.Return):
+                tail = ast.Return(val)
+            else:
+                tail = ast.Expr(val)
+            new_body.append(ast.copy_location(tail, ret))
+        elif isinstance(stmt, ast.Assign):
+            new_body.append(ast.copy_location(ast.Assign(
+                copy.deepcopy(stmt.targets), ast.Constant(None)), stmt))
+        elif isinstance(stmt, ast.Return):
+            new_body.append(ast.copy_location(ast.Return(None), stmt))
+        out = out + new_body
+        for s in out:
+            ast.fix_missing_locations(s)
+        return process(out, level - 1)
+
+    def process(stmts, level):
+        res = []
+        for s in stmts:
+            ex = expand(s, level)
+            if ex is not None:
+                res.extend(ex)
+                continue
+            for field in ("body", "orelse", "finalbody"):
+                sub = getattr(s, field, None)
+                if isinstance(sub, list) and sub and isinstance(sub[0],
+                                                                ast.stmt):
+                    setattr(s, field, process(sub, level))
+            if isinstance(s, ast.Try):
+                for h in s.handlers:
+                    h.body = process(h.body, level)
+            res.append(s)
+        return res
+    fn.body = process(fn.body, depth)
+    return fn
